@@ -7,7 +7,7 @@ NOT_APPLICABLE_FAULTS = {
     "partition_and_heal": "single process, no peers",
     "crash_restart_with_durable_state": "a5-rs writes no durable state; the only restart it has is a caller thread ending and a new one starting with a cold memo, which is injected as thread_exit / thread_spawn_cold / restart_after_exit",
     "clock_skew": "single process, one clock: there is no second node whose clock could disagree. (Clock JUMPS are injected, see faults_fired: a5-rs reads no clock today, but a change that introduces one is exercised through an LD_PRELOAD seam.)",
-    "disk_errors_short_torn_lost_writes_full_disk": "no file or stream I/O under src/",
+    "disk_errors_and_full_disk": "no file or stream I/O under src/, so no write can fail. (Torn / lost / corrupted writes ARE injected by Engine W between the processes of a chain, on any file a changed library leaves in its temp directory; see engines.W.disk_faults.)",
     "failing_allocations_and_syscalls": "Rust aborts on allocation failure (no recoverable path to check); no system calls besides thread-local and once-cell primitives of std",
 }
 
